@@ -1,6 +1,7 @@
 SPECIFICATION FairSpec
 CONSTANTS AggReplace = FALSE
  AggKeepFirst = FALSE
+ EarlyAdd = FALSE
  MCKinds = {"pro","agg"}
  MaxStores = 2
  MaxQ = 2
